@@ -1509,7 +1509,14 @@ class SqlRegistry:
             records = {}
         else:
             records = dict(records)
-        if isinstance(dataId, DataCoordinate) and dataId.hasRecords():
+        if (
+            isinstance(dataId, DataCoordinate)
+            and dataId.hasRecords()
+            # The records attached to the given data ID describe its own
+            # values; if a keyword argument overrode one of them they do not
+            # describe the data ID being expanded and must be fetched again.
+            and all(standardized.mapping.get(k, v) == v for k, v in dataId.mapping.items())
+        ):
             for element_name in dataId.dimensions.elements:
                 records[element_name] = dataId.records[element_name]
         keys: dict[str, str | int] = dict(standardized.mapping)
